@@ -264,7 +264,8 @@ PROPS["C10"] = dict(
 PROPS["C11"] = dict(
     level_text="Machine-checked proof (Lean 4): every operation sequence only extends the node table and keeps the invariant, so every earlier handle keeps its function (C11.handles_stable, from the "
                "refinement theorem of C06/C07); every answer depends only on the Boolean functions of the conditions, hence is the same on a fresh object and on one with an arbitrary call history "
-               "(any two well-formed stores whose condition handles denote the same functions): the grounded vector's decided part and the complete filter (grounded_history_independent, "
+               "(any two well-formed stores whose condition handles denote the same functions), and the diagram layer does not even change handle NUMBERS or the node table when the memo tables differ or are dropped "
+               "(handles_memo_independent, handles_memo_independent_reachable, represented_result_not_reallocated): the grounded vector's decided part and the complete filter (grounded_history_independent, "
                "complete_filter_history_independent), the sets of complete models, of enumerate-and-check stable models, of the counting-guided search under either heuristic and of the nogood search "
                "under any two heuristics (complete_/stable_/count_search_/ng_search_history_independent, corollaries of the exactness theorems of C02-C05, which hold from ANY well-formed store with ANY "
                "sound memo contents). Determinism is immediate for the model (pure functions of explicit inputs; Rand's generator state is an explicit input of the scripted shape); that the code "
@@ -476,11 +477,12 @@ PROPS["C14"] = dict(
                "empty memo tables, keeps WF and recomputes aligned, sound dependency lists and a total, sound count cache (C14.import_fix, import_fix_same_bookkeeping); rebuilding from the plain node "
                "list as the web service does reproduces the same numbering (rebuild_id, simplified_roundtrip with the string codec as explicit assumption); every handle keeps its function and every "
                "answer that is a function of (nodes, ac) or of the conditions' functions is equal (handles_keep_function, answers_equal, grounded_after_roundtrip); fix_import on a store that already "
-               "has variable lists misaligns them (fix_import_precondition, fix_import_twice_counterexample); the CLI never overwrites (export_never_overwrites). PARTIAL: that handles issued LATER on "
-               "the round-tripped object carry the same numbers as on a never-exported twin (future_ops_same_functions_partial proves same functions) is observed by the runs. Tie to the code: "
+               "has variable lists misaligns them (fix_import_precondition, fix_import_twice_counterexample); the CLI never overwrites (export_never_overwrites). Handles issued LATER on "
+               "the round-tripped object carry the same NUMBERS and produce the same node table as on a never-exported twin, for every operation sequence and any memo contents on either side "
+               "(future_ops_same_handles, future_ops_same_handles_roundtrips: memo transparency - a result that is already represented is never re-allocated). Tie to the code: "
                "serde_json round trip + fix_import and Bdd::from(nodes) at random points of random operation histories, node tables / ac / names / unique table / recomputed bookkeeping / empty memos "
                "compared with the original, the real private tables audited (pmemocheck), operations and semantics continued against a never-exported twin; CLI --export twice and --import in C15's runs.",
-    level_note="Trusted: Lean kernel + standard axioms; serde_json and decimal parsing are assumptions observed by the runs; later handle numbering only observed (partial).",
+    level_note="Trusted: Lean kernel + standard axioms; serde_json and decimal parsing are assumptions observed by the runs.",
     technique="Lean 4 proof (rebuild = identity on well-formed tables; recomputed bookkeeping equals the invariant's) + correspondence check incl. audit of the real private tables",
     jobs=[Job("persist", 600, 15000, size=5, size_thorough=6, fsets_thorough=("default", "none", "all", "off-v1-f0"),
               relevant=heads(*PERSIST_HEADS), nontrivial=nt_persist),
@@ -504,6 +506,7 @@ def case_hash(reqs):
 
 
 CHUNK = 25000
+PAR = 14  # parallel chunks (16 cores)
 
 
 def anchor_drift(prop):
@@ -552,35 +555,42 @@ def run_job(prop, job, tier, seed, fset, factor=1, extended=False):
         for f in sorted(os.listdir(cdir)):
             if f.endswith(".case"):
                 corpus += open(os.path.join(cdir, f)).read().rstrip("\n") + "\n"
-    total = None
-    done = 0
-    k = 0
     if cases == 0:
         return dict(mism=[], cases=0, records=0, nontrivial=set(), distinct=set(), samples=[], status="ok", dist={})
+    # the run is cut into chunks (one generator seed per chunk, a function of seed and chunk number
+    # only) which are executed in parallel: harness and driver are single-threaded processes
+    csize = min(CHUNK, max(250, -(-cases // PAR)))
+    plan = []
+    done = 0
+    k = 0
     while done < cases:
-        nk = min(CHUNK, cases - done)
-        sk = seed if k == 0 else seed * 100003 + k
+        nk = min(csize, cases - done)
+        plan.append((k, nk, seed if k == 0 else seed * 100003 + k))
+        done += nk
+        k += 1
+    tmo = job.timeout * (3 if tier == "thorough" else 1) * factor
+
+    def one(item):
+        k, nk, sk = item
         rc, reqs, err = R.run([harness, "gen", job.family, str(sk), str(nk), str(size)] + job.extra, timeout=1200)
         if rc != 0:
             raise RuntimeError("generator failed: " + err[-500:])
-        res = run_requests(prop, job, harness, (corpus if k == 0 else "") + reqs,
-                           job.timeout * (3 if tier == "thorough" else 1) * factor)
-        if total is None:
-            total = res
-        else:
-            total["mism"] += res["mism"]
-            total["cases"] += res["cases"]
-            total["records"] += res["records"]
-            total["nontrivial"] |= res["nontrivial"]
-            total["distinct"] |= res["distinct"]
-            for kk, v in res["dist"].items():
-                total["dist"][kk] = total["dist"].get(kk, 0) + v
-            if res["status"] != "ok":
-                total["status"] = res["status"]
-        done += nk
-        k += 1
-        if len(total["mism"]) > 200:
-            break
+        return run_requests(prop, job, harness, (corpus if k == 0 else "") + reqs, tmo)
+
+    from concurrent.futures import ThreadPoolExecutor
+    with ThreadPoolExecutor(max_workers=min(PAR, len(plan))) as ex:
+        parts = list(ex.map(one, plan))
+    total = parts[0]
+    for res in parts[1:]:
+        total["mism"] += res["mism"]
+        total["cases"] += res["cases"]
+        total["records"] += res["records"]
+        total["nontrivial"] |= res["nontrivial"]
+        total["distinct"] |= res["distinct"]
+        for kk, v in res["dist"].items():
+            total["dist"][kk] = total["dist"].get(kk, 0) + v
+        if res["status"] != "ok":
+            total["status"] = res["status"]
     return total
 
 
@@ -620,6 +630,140 @@ def run_requests(prop, job, harness, reqs, timeout):
     nrec = sum(len(c) for c in icases)
     return dict(mism=mism, cases=len(icases), records=nrec, nontrivial=nontriv, distinct=allh, samples=samples,
                 status=status, dist=dist)
+
+
+# ----------------------------------------------------------------------------------------------
+# neighbourhood search: cases on which the implementation already differs from the MODEL (but not
+# from the specification) are near misses; their neighbours (small edits of the same input) are a
+# far better place to look for a failing input than fresh random inputs
+
+BIN_OPS = ["and", "or", "imp", "iff", "xor"]
+
+
+def _subterm_end(toks, i):
+    """index one past the prefix-notation term that starts at toks[i]"""
+    need = 1
+    while need > 0 and i < len(toks):
+        t = toks[i]
+        if t in BIN_OPS:
+            need += 1
+        elif t == "not":
+            pass
+        else:
+            need -= 1
+        i += 1
+    return i
+
+
+def mutate_adf_case(reqs, rnd):
+    """one small edit of the acceptance conditions of an adf-family case (prefix notation)"""
+    reqs = list(reqs)
+    n = 0
+    acs = []
+    for i, r in enumerate(reqs):
+        w = r.split(" ")
+        if w[0] == "adf" and len(w) == 2 and w[1].isdigit():
+            n = int(w[1])
+        elif w[0] == "ac" and len(w) >= 3:
+            acs.append(i)
+    if not acs or n == 0:
+        return None
+    for _ in range(rnd.choice([1, 1, 2])):
+        i = rnd.choice(acs)
+        w = reqs[i].split(" ")
+        head, toks = w[:2], w[2:]
+        j = rnd.randrange(len(toks))
+        kind = rnd.randrange(7)
+        if kind == 0:      # another atom
+            toks[j:_subterm_end(toks, j)] = [f"a{rnd.randrange(n)}"]
+        elif kind == 1 and toks[j] in BIN_OPS:  # another connective
+            toks[j] = rnd.choice([o for o in BIN_OPS if o != toks[j]])
+        elif kind == 2:    # negate a subterm (or drop a negation)
+            if toks[j] == "not":
+                del toks[j]
+            else:
+                toks.insert(j, "not")
+        elif kind == 3:    # wrap a subterm into a connective with a literal
+            lit = [f"a{rnd.randrange(n)}"] if rnd.random() < 0.6 else ["not", f"a{rnd.randrange(n)}"]
+            e = _subterm_end(toks, j)
+            sub = toks[j:e]
+            toks[j:e] = [rnd.choice(BIN_OPS[:2])] + (sub + lit if rnd.random() < 0.5 else lit + sub)
+        elif kind == 4 and toks[j] in BIN_OPS:  # keep one operand only
+            a_end = _subterm_end(toks, j + 1)
+            b_end = _subterm_end(toks, a_end)
+            keep = toks[j + 1:a_end] if rnd.random() < 0.5 else toks[a_end:b_end]
+            toks[j:b_end] = keep
+        elif kind == 5:    # swap the conditions of two statements
+            k = rnd.choice(acs)
+            wk = reqs[k].split(" ")
+            reqs[k] = " ".join(wk[:2] + toks)
+            toks = wk[2:]
+        else:              # constant
+            toks[j:_subterm_end(toks, j)] = [rnd.choice(["T", "F"])]
+        reqs[i] = " ".join(head + toks)
+    return reqs
+
+
+def neighbourhood_search(prop, seeds, known, budget_cases=40000, per_seed=24, rounds=5):
+    """seeds: list of (case_reqs, job, fset) on which only the correspondence differs.
+    Several generations: edited inputs on which implementation and model STILL differ are the
+    seeds of the next generation (the search stays in the region where the changed code runs).
+    -> (Mismatch, job, fset) | None, number of cases run"""
+    import random
+    from concurrent.futures import ThreadPoolExecutor
+    rnd = random.Random(20260926)
+    ran = 0
+    seen = set()
+    cur = []
+    for reqs, job, fset in seeds:
+        if job.family != "adf" or not reqs:
+            continue
+        key = case_hash(reqs)
+        if key not in seen:
+            seen.add(key)
+            cur.append((reqs, job, fset))
+    for gen in range(rounds):
+        if not cur or ran >= budget_cases:
+            break
+        rnd.shuffle(cur)
+        room = (budget_cases - ran) // max(1, rounds - gen)
+        per = max(6, min(per_seed, room // len(cur)))
+        by = {}
+        for reqs, job, fset in cur[:max(1, room // per)]:
+            for _ in range(per):
+                m = mutate_adf_case(reqs, rnd)
+                if m is not None:
+                    key = case_hash(m)
+                    if key not in seen:
+                        seen.add(key)
+                        by.setdefault((id(job), fset), (job, fset, []))[2].append(m)
+        work = []
+        for job, fset, muts in by.values():
+            for off in range(0, len(muts), 400):
+                chunk = muts[off:off + 400]
+                text = ""
+                for k, m in enumerate(chunk):
+                    text += "\n".join([f"case nb-{gen}-{off + k}"] + [r for r in m if not r.startswith("case ")]) + "\n"
+                work.append((job, fset, text))
+
+        def one(w):
+            job, fset, text = w
+            return job, fset, run_requests(prop, job, R.harness_path(fset), text, job.timeout)
+
+        with ThreadPoolExecutor(max_workers=PAR) as ex:
+            outs = list(ex.map(one, work))
+        nxt = []
+        for job, fset, res in outs:
+            ran += res["cases"]
+            bad = lambda m: "bad-request" in str(m.impl) + str(m.model)
+            pm = [m for m in res["mism"] if m.kind in ("prop", "hang", "crash") and not bad(m)
+                  and not R.match_known(prop, m, known)]
+            if pm:
+                return (pm[0], job, fset), ran
+            nxt += [(m.case_reqs, job, fset) for m in res["mism"] if m.kind == "corr" and not bad(m)]
+        R.log(f"  neighbourhood generation {gen}: {ran} cases so far, {len(nxt)} still differ from the model")
+        cur = nxt
+    return None, ran
 
 
 def check_property(prop, tier, seed):
@@ -732,6 +876,7 @@ def decide(prop, tier, seed, cfg, proof, results, build_fail, known, extra_res, 
         R.log("proof or correspondence broken, property oracle clean: extended search for a failing input")
         found = None
         ext_cases = 0
+        near = [(m.case_reqs, m.job, m.fset) for m in corr_mism if getattr(m, "job", None) is not None]
         for res in results:
             job = res["job"]
             for k in range(1, 4):
@@ -739,12 +884,20 @@ def decide(prop, tier, seed, cfg, proof, results, build_fail, known, extra_res, 
                 ext_cases += r2["cases"]
                 pm = [m for m in r2["mism"] if m.kind in ("prop", "hang", "crash")]
                 pm = [m for m in pm if not R.match_known(prop, m, known)]
+                near += [(m.case_reqs, job, res["fset"]) for m in r2["mism"] if m.kind == "corr"]
                 if pm:
                     found = (pm[0], job, res["fset"])
                     break
             if found:
                 break
-        ext_info = {"extended_cases": ext_cases, "found": bool(found)}
+        nb_cases = 0
+        found_by = "extended search after a broken proof/correspondence"
+        if not found and near:
+            R.log(f"extended search found nothing; neighbourhood search around {len(near)} cases on which the correspondence differs")
+            found, nb_cases = neighbourhood_search(prop, near, known)
+            if found:
+                found_by = "neighbourhood search (small edits of inputs on which implementation and model differ)"
+        ext_info = {"extended_cases": ext_cases, "neighbourhood_cases": nb_cases, "found": bool(found)}
         if found:
             m, job, fset = found
             m.fset = fset
@@ -758,7 +911,7 @@ def decide(prop, tier, seed, cfg, proof, results, build_fail, known, extra_res, 
             path = R.write_replay(prop, seed, nrep, {
                 "property": prop, "kind": "input", "failure": shr.kind, "seed": seed, "tier": tier, "feature_set": fset,
                 "stream": reqs, "failing_request": shr.req, "impl": shr.impl, "spec_or_model": shr.model,
-                "found_by": "extended search after a broken proof/correspondence",
+                "found_by": found_by,
                 "how_to_replay": f"./check {prop} --replay <this file>"})
             violations.append((path, ""))
         else:
